@@ -49,8 +49,13 @@ def inspect_pbkdf2_hash(
     if digest_name != cls.DIGEST_NAME:
         return None
 
+    try:
+        rounds = int(match.group("rounds"))
+    except ValueError:
+        # (python refuses to convert absurdly long digit strings)
+        return None
     return cls(
-        rounds=int(match.group("rounds")),
+        rounds=rounds,
         salt=match.group("salt"),
         hash=match.group("hash"),
     )
